@@ -4,4 +4,5 @@ MODULES = [
     "specs.vault_maps",
     "specs.coords",
     "specs.datatypes",
+    "specs.vault",
 ]
